@@ -237,11 +237,24 @@ void check_p(Case &c, const Built &b, const pf::Result &r)
     }
 }
 
+// the printf_reentrant target: the output callback re-enters __printf (see printf_common.h)
+static int g_reenter_every = 0;
+static long long g_reenter_val = 0;
+
 void run_and_check(Case &c, Built &b, bool do_sprintf)
 {
     pf::Result r;
     r.do_sprintf = do_sprintf && !b.has_p;
+    r.cap.reenter_every = g_reenter_every;
+    r.cap.reenter_val = g_reenter_val;
     pf::run_both(r, b.fmt.c_str(), b.args);
+    if (g_reenter_every && r.cap.inner_runs)
+    {
+        char want[96];
+        snprintf(want, sizeof want, "%lld;%x;%o;%s", g_reenter_val, (unsigned)g_reenter_val, (unsigned)(g_reenter_val >> 7), "in");
+        c.label("callback_reentered");
+        VP_CHECK(r.cap.inner_out == want, "reentrant_inner_output", "the call made from inside the output callback printed '%s', ISO '%s'", r.cap.inner_out.c_str(), want);
+    }
     if (b.has_p)
     {
         check_p(c, b, r);
@@ -414,6 +427,21 @@ VP_TARGET("printf_wide", t_printf_wide,
           "one directive of the same grammar with width and/or precision in 250..262, 41..600 or 1000..1100 (literal or through *, "
           "negative * widths included), %s arguments of up to 300 characters (unterminated when the precision bounds the read); same "
           "differential against the host; every case non-trivial");
+
+void t_printf_reentrant(Src &s, Case &c)
+{
+    g_reenter_every = (int)s.range(1, 4);
+    g_reenter_val = s.coin() ? (long long)s.range(-100000, 100000) : (long long)s.biased_int<int64_t>();
+    struct Off
+    {
+        ~Off() { g_reenter_every = 0; }
+    } off;
+    c.log("callback re-enters __printf every %d character(s) with %lld; ", g_reenter_every, g_reenter_val);
+    t_printf_int(s, c);
+}
+VP_TARGET("printf_reentrant", t_printf_reentrant,
+          "the formats of printf_int with an output callback that itself calls __printf (integer and %s conversions of a drawn value into its own sink) "
+          "every 1..4 characters: the outer output, return value and callback count must still equal the host's, and the inner call's output too");
 
 // -------------------------------------------------------------------- grid
 // flags(32) x width{none,1,7,*5,*-5,12} x prec{none,.,.0,.1,.7,.*-1} x len(8) x conv(9) x 8 values
